@@ -413,3 +413,45 @@ Proof.
     rewrite Hc. apply bal_add_pa_nozero.
   - rewrite Hc. eapply live_balance_at_assertion; eauto.
 Qed.
+
+(* ---- the converse: a false assertion is rejected, at its posting ---- *)
+Lemma txn_loop_from_upto s t k :
+  txn_loop s t = fold_left (loop_step (t_date t)) (skipn k (enumerate 0 (t_posts t))) (loop_upto s t k).
+Proof.
+  unfold txn_loop, loop_upto. rewrite <- fold_left_app, firstn_skipn. reflexivity.
+Qed.
+
+Lemma process_from_app_ok es1 : forall i s s1 es2,
+  process_from i s es1 = (Ok s1, (i + length es1)%nat) ->
+  process_from i s (es1 ++ es2) = process_from (i + length es1) s1 es2.
+Proof.
+  induction es1 as [|e es1 IH]; intros i s s1 es2 H; cbn [process_from app length] in *.
+  - injection H as <-. now rewrite Nat.add_0_r.
+  - destruct (process_entry s e) as [s'|x|] eqn:E.
+    + replace (i + S (length es1))%nat with (S i + length es1)%nat in * by lia. now apply IH.
+    + injection H as _ H. lia.
+    + injection H as H. lia.
+Qed.
+
+Theorem false_rejected es1 t es2 s i st p sa bc amt cl expected :
+  process es1 = (Ok s, length es1) ->
+  loop_upto s t i = Ok st -> nth_error (t_posts t) i = Some p ->
+  p_amount p = Some sa -> p_balance p = Some bc ->
+  eval_pa sa = Ok amt -> eval_cost_lot amt p = Ok cl -> eval_pa bc = Ok expected ->
+  let computed := snd (bal_add_pa (l_bal st) (p_account p) amt) in
+  ~ holds expected (a_get computed) ->
+  process (es1 ++ ETxn t :: es2)
+  = (Err (BalanceAssertionFailure i computed (assert_diff expected computed)), length es1).
+Proof.
+  intros H1 Hl Hn Hsa Hbc Eamt Ecl Eexp computed Hnh.
+  unfold process in *. rewrite (process_from_app_ok es1 0 bstate0 s) by exact H1.
+  cbn [Nat.add process_from process_entry].
+  assert (Ht : add_transaction s t = Err (BalanceAssertionFailure i computed (assert_diff expected computed))).
+  { assert (Hloop : txn_loop s t = Err (BalanceAssertionFailure i computed (assert_diff expected computed))).
+    { rewrite (txn_loop_from_upto s t (S i)), (loop_upto_S _ _ _ _ Hn), Hl.
+      unfold loop_step at 2. cbn [bind].
+      rewrite (proj2 (assert_checked (l_bal st) (t_date t) i p sa bc expected Hsa Hbc Eexp) amt cl Eamt Ecl Hnh).
+      cbn [bind]. apply fold_loop_err. }
+    unfold add_transaction. unfold txn_loop in Hloop. rewrite Hloop. reflexivity. }
+  now rewrite Ht.
+Qed.
